@@ -282,6 +282,94 @@ Definition open_read_all (st : rst) (nreq treq : list Z) : rst * list Z * ores :
         end
     end.
 
+(* ---------------------------------------------------------------- bounded reads (INPUT$(n, #f)) *)
+
+(* a text file being read: CassetteStream.record_stream (unread part), buffer_complete, records ahead *)
+Record rdst := { rd_buf : list Z; rd_done : bool; rd_rest : list record }.
+
+Inductive fres :=
+| FOk (s : rdst)
+| FEnd                          (* EndOfTape *)
+| FErr (rest : list record).    (* unreadable (empty) record *)
+
+(* _fill_record_buffer for text/data files *)
+Definition fill_text (rest : list record) : fres :=
+  match rest with
+  | [] => FEnd
+  | r :: rest' =>
+      match r with
+      | [] => match rest' with [] => FEnd | _ :: rest'' => FErr rest'' end
+      | b :: _ =>
+          let n := hd 0 b in
+          if cas_is_last n
+          then FOk {| rd_buf := firstn (Z.to_nat (cas_last_take n)) (tl b); rd_done := true; rd_rest := rest' |}
+          else FOk {| rd_buf := tl b; rd_done := false; rd_rest := rest' |}
+      end
+  end.
+
+Inductive rres :=
+| ROk (c : list Z) (s : rdst)
+| RErr (rest : list record).
+
+(* CassetteStream.read(nbytes), nbytes >= 0:
+     c += record_stream.read(nbytes-len(c)); if len(c) >= nbytes: return c
+     if buffer_complete: return c;  _fill_record_buffer()  (EndOfTape: return c) *)
+Fixpoint cs_read (fuel : nat) (n : nat) (c : list Z) (s : rdst) : rres :=
+  let k := (n - length c)%nat in
+  let c' := c ++ firstn k (rd_buf s) in
+  let s' := {| rd_buf := skipn k (rd_buf s); rd_done := rd_done s; rd_rest := rd_rest s |} in
+  if (n <=? length c')%nat then ROk c' s'
+  else if rd_done s then ROk c' s'
+  else match fuel with
+       | O => ROk c' s'
+       | S f => match fill_text (rd_rest s) with
+                | FEnd => ROk c' s'
+                | FErr rest => RErr rest
+                | FOk s2 => cs_read f n c' s2
+                end
+       end.
+Definition read_n (n : nat) (s : rdst) : rres := cs_read (S (length (rd_rest s))) n [] s.
+
+(* the harness loop: requests of plan[i mod len] bytes until a request returns nothing *)
+Fixpoint read_plan (fuel : nat) (plan : list nat) (i : nat) (s : rdst) (data lens : list Z)
+  : option (list Z * list Z * list record) :=          (* None = Device I/O error *)
+  match fuel with
+  | O => Some (data, lens, rd_rest s)
+  | S f =>
+      match read_n (nth (i mod length plan) plan 1%nat) s with
+      | RErr rest => None
+      | ROk c s' =>
+          match c with
+          | [] => Some (data, lens ++ [0], rd_rest s')
+          | _ => read_plan f plan (S i) s' (data ++ c) (lens ++ [zlen c])
+          end
+      end
+  end.
+Definition rd0 (rest : list record) : rdst := {| rd_buf := []; rd_done := false; rd_rest := rest |}.
+Definition tape_bytes (rest : list record) : nat := length (concat (concat rest)).
+
+(* CASDevice.open(mode 'I') + bounded reads to the end + close: as open_read_all, and the lengths returned *)
+Definition open_read_plan (plan : list nat) (st : rst) (nreq treq : list Z) : rst * list Z * ores * list Z :=
+  if r_open st then (st, [], OErr 55, [])
+  else if illegal_name nreq then (st, [], OErr 52, [])
+  else
+    match search nreq treq (r_type st) [] false (r_rest st) with
+    | SFound b t msgs rest =>
+        if is_binary t then (open_read_all st nreq treq, [])
+        else
+          let '(trunk, _, len, seg, offs) := parse_header b in
+          let bin := negb (is_ad t) in
+          match read_plan (S (S (tape_bytes rest))) plan 0 (rd0 rest) [] [] with
+          | Some (d, lens, rest') =>
+              ({| r_tape := r_tape st; r_rest := rest'; r_type := t; r_open := false |}, msgs,
+               OFile {| rf_name := trunk; rf_type := t; rf_bin := bin;
+                        rf_seg := if bin then seg else 0; rf_off := if bin then offs else 0;
+                        rf_len := if bin then len else 0; rf_data := d |}, lens)
+          | None => (open_read_all st nreq treq, [])
+          end
+    | _ => (open_read_all st nreq treq, [])
+    end.
+
 (* ---------------------------------------------------------------- sequential read of a whole tape *)
 
 (* open with no name and no type filter, read, close; until Device Timeout *)
@@ -315,12 +403,12 @@ Definition enc_ores (o : ores) : list Z :=
   | OFile f => [0; rf_type f; rf_seg f; rf_off f; rf_len f] ++ digest (rf_data f)
   end.
 
-Fixpoint read_reqs (st : rst) (reqs : list (list Z * list Z)) : list Z :=
+Fixpoint read_reqs (plan : list nat) (st : rst) (reqs : list (list Z * list Z)) : list Z :=
   match reqs with
   | [] => []
   | (n, t) :: r =>
-      let '(st', msgs, o) := open_read_all st n t in
-      enc_ores o ++ (zlen msgs :: msgs) ++ read_reqs st' r
+      let '(st', msgs, o, lens) := open_read_plan plan st n t in
+      enc_ores o ++ (match lens with [] => [] | _ => digest lens end) ++ (zlen msgs :: msgs) ++ read_reqs plan st' r
   end.
 
 (* content patterns (so that case literals stay small): n bytes from (a, b); no 0x1A when text *)
@@ -341,6 +429,7 @@ Fixpoint cut (l : list Z) (lens : list nat) : list (list Z) :=
   end.
 
 (* a whole harness case: write the files to a fresh image, (digest the image), reopen, run the requests *)
-Definition run_case (structure : bool) (fs : list wfile) (reqs : list (list Z * list Z)) : list Z :=
+Definition run_case (structure : bool) (fs : list wfile) (reqs : list (list Z * list Z)) (plan : list nat)
+  : list Z :=
   let '(st, codes) := write_files wst0 fs in
-  codes ++ (if structure then tape_digest (w_tape st) else []) ++ read_reqs (rst0 (w_tape st)) reqs.
+  codes ++ (if structure then tape_digest (w_tape st) else []) ++ read_reqs plan (rst0 (w_tape st)) reqs.
